@@ -9,8 +9,9 @@ from . import run as R
 
 IDENTS = ["Red", "GreenApple", "HTTPServer", "Utf8String", "X", "Abc_def", "A1b2", "XMLHttpRequest2", "Id", "IOError",
           "snake_name", "SCREAMING_ONE", "Blue2Go", "ÜberCool"[1:], "Yellow", "darkGray", "B", "Http2_Proxy", "V10",
-          "NoCase", "Purple_", "QRCode", "WiFi", "Z9", "r#type", "r#Match", "r#loop_Forever"]
-IDENTS = [i for i in IDENTS if i.isascii()]
+          "NoCase", "Purple_", "QRCode", "WiFi", "Z9", "r#type", "r#Match", "r#loop_Forever",
+          # non-ASCII identifiers: named by the Rust reference on heck (resolve_names), outside the theorems' ASCII domain
+          "ÉlanVital", "Ωmega", "straßeName", "Öl2Rest", "ДобрыйДень"]
 STYLES = ["camelCase", "PascalCase", "kebab-case", "snake_case", "SCREAMING_SNAKE_CASE", "SCREAMING-KEBAB-CASE",
           "lowercase", "UPPERCASE", "title_case", "mixed_case", "Train-Case",
           "camel_case", "snek_case", "kebab_case", "shouty_snake_case", "shouty_snek_case"]
@@ -168,7 +169,35 @@ def fix_generics(it: Item) -> Item:
     return it
 
 
+def resolve_names(prop: str, items):
+    """NON-ASCII identifiers are outside the Coq model's domain (Model/Heck.v is stated over ASCII bytes). A variant with such an
+    identifier and no explicit name gets `model_name`: what the Rust reference (harness/genprobe `mod reference`, written on heck
+    itself) makes of the identifier under the enum's serialize_all style. The model then treats it as a declared spelling."""
+    todo = []
+    for it in items:
+        style = next((m.s for m in it.metas if m.kind == "sall"), None)
+        for v in it.variants:
+            if not v.ident.isascii() and v.model_name is None and not any(m.kind in ("ser", "tos") for m in v.metas):
+                todo.append((v, style))
+    if not todo:
+        return
+    binp, err = R.build_genprobe()
+    if binp is None:
+        raise RuntimeError("genprobe does not build: " + str(err))
+    lines = ["caseu %d %s %s" % (n, hx(st) if st is not None else "-", hx(v.ident)) for n, (v, st) in enumerate(todo)]
+    obs, died = R.run_genprobe(binp, lines, os.path.join(R.WORK, prop, "names"))
+    for n, (v, st) in enumerate(todo):
+        parts = dict(p.split("=", 1) for p in obs.get(n, "").split("|") if "=" in p)
+        ref = parts.get("ref", "")
+        if not ref.startswith("x"):
+            # an unknown style: the model rejects the definition on its own
+            v.model_name = v.ident
+        else:
+            v.model_name = bytes.fromhex(ref[1:]).decode("utf-8")
+
+
 def classify(prop: str, items, extra_kind=None):
+    resolve_names(prop, items)
     for it in items:
         fix_generics(it)
     """run the extracted model's `spell` query on candidate definitions.
@@ -261,6 +290,7 @@ def spec_grid(rng, n=None, full=False):
 def model_query(prop: str, items, queries_per_item):
     """run the extracted model on candidate definitions with the given [(kind, args)] per item;
     -> list (per item) of list of observations"""
+    resolve_names(prop, items)
     d = os.path.join(R.WORK, prop)
     os.makedirs(d, exist_ok=True)
     path = os.path.join(d, "candidates2.txt")
